@@ -98,6 +98,10 @@ def ground_truth(args, truth_file):
         filenames = getattr(args, pluralise(fun_name))
         if filenames is None:  # This kind was not given; two kinds are enough
             continue
+        if fun_name == args.truth:
+            # The source of truth is read, never rewritten
+            effect[path.realpath(path.expanduser(filenames[0]))] = False
+            filenames = filenames[1:]
 
         search = list(strip_split(_get_name_from_namespace(args, fun_name), "."))
         assert isinstance(
